@@ -152,10 +152,12 @@ def groupLoop : Group → List PDigest → List Group
     if sameGroup d cur then groupLoop { cur with proteins := cur.proteins ++ [d.protein] } ds
     else { cur with proteins := sortStr cur.proteins } :: groupLoop (newGroup d [d.protein]) ds
 
-/-- `group_digests`; `none` = the `digests[0]` panic on an empty list -/
+/-- `group_digests`. An empty digest list gives no groups (the guard `if digests.is_empty() { return groups; }`;
+    before it the code indexed `digests[0]` and panicked). The result is always `some`: the `Option` is kept so
+    that statements of the form `… = some db` read as before. -/
 def groupDigests (ds : List PDigest) : Option (List Group) :=
   match sortDigests ds with
-  | [] => none
+  | [] => some []
   | d :: rest => some (groupLoop (newGroup d []) (d :: rest))
 
 /-! ## the target set (`DashSet`) -/
@@ -280,7 +282,8 @@ end order
 section build
 variable {α : Type} [Add α] [OfNat α 0] [BEq α] [LE α] [DecidableLE α] [LT α] [DecidableLT α]
 
-/-- `Parameters::digest` for a given order of the target-set inserts; `none` = panic (no digest at all) -/
+/-- `Parameters::digest` for a given order of the target-set inserts. Never `none` (`buildDb_total`): a FASTA
+    without any digest gives the empty database. -/
 def buildWith (cfg : Cfg α) (targets : List (C05.Seq × C05.Seq)) (schedule : List Str → List Str) :
     Option (List (DbPep α)) :=
   (groupDigests (fastaDigest cfg.par cfg.tag cfg.gen targets)).map fun gs =>
@@ -430,11 +433,11 @@ def prefilterConcat (seed : Nat) (drop : Bool) (dbs : List (List (DbPep α))) : 
   (dbs.zipIdx).flatMap fun dc =>
     (dc.1.zipIdx).filterMap fun pi => if drop && !keepEntry seed dc.2 pi.2 then none else some pi.1
 
-/-- the per-chunk databases; `none` = some chunk panics (no digest) -/
+/-- the per-chunk databases (a chunk without any digest contributes the empty database) -/
 def chunkDbs (cfg : Cfg α) (targets : List (C05.Seq × C05.Seq)) (k : Nat) : Option (List (List (DbPep α))) :=
   (chunksOf k targets).mapM (buildDb cfg)
 
-/-- `prefilter_peptides`; `none` = panic (`chunks(0)`, or a chunk without any digest) -/
+/-- `prefilter_peptides`; `none` = panic (`chunks(0)`) -/
 def prefilterBuild (cfg : Cfg α) (targets : List (C05.Seq × C05.Seq)) (k seed : Nat) (drop : Bool) :
     Option (List (DbPep α)) :=
   if k = 0 then none else
